@@ -2,6 +2,8 @@ import BobModel.Proofs.C14Enc
 import BobModel.Proofs.C14Order
 import BobModel.Proofs.C14Closure
 import BobModel.Proofs.C14Validate
+import BobModel.Proofs.C14Term
+import BobModel.Proofs.C14TermRecipes
 /-
 C14 — audit trails are complete and truthful: property theorems about the model of pym/bob/audit.py
 (`Model/Audit.lean`).  Helper lemmas and the specification predicates (`ClosedAll`, `Closed`, `Reach`,
@@ -193,10 +195,101 @@ theorem referencedBuildIds_keyError (fuel : Nat) (a : Audit.Audit)
   | keyError => exact rbiLoop_keyError _ _ _ hr
   | outOfFuel => simp [hr] at h
 
-/-- Not proved: termination of the traversal on acyclic reference graphs (the source keeps no `done` set, on a
-cyclic graph — only constructible by editing a file, ids being content hashes — it does not terminate). -/
+/-- **termination of the traversal on acyclic reference graphs** (full statement, proved right below).  The
+source keeps no `done` set: an id is popped once per reference path leading to it, and on a cyclic graph —
+only constructible by editing a file, ids being content hashes — the loop does not terminate. -/
 def referencedBuildIds_terminates_goal : Prop :=
   ∀ a : Audit.Audit, (∃ rank : Id → Nat, ∀ j c i, lookupRef a.references j = some c → i ∈ c.getReferences → rank i < rank j) →
     ∃ fuel, getReferencedBuildIds fuel a ≠ .outOfFuel
+
+/-- the goal holds: the weight of the worklist (`cost i` = number of nodes of the unfolding of the graph below
+`i`) drops by at least one per iteration -/
+theorem referencedBuildIds_terminates : referencedBuildIds_terminates_goal := by
+  rintro a ⟨rank, hr⟩
+  exact ⟨rbiFuel a rank, getReferencedBuildIds_fuel hr (Nat.le_refl _)⟩
+
+/-- the same with the fuel explicit: `rbiFuel` (the size of the unfolding below the artifact's references) and
+every larger fuel suffice -/
+theorem referencedBuildIds_terminates_fuel (a : Audit.Audit) (rank : Id → Nat)
+    (hr : ∀ j c i, lookupRef a.references j = some c → i ∈ c.getReferences → rank i < rank j)
+    (fuel : Nat) (hf : rbiFuel a rank ≤ fuel) : getReferencedBuildIds fuel a ≠ .outOfFuel :=
+  getReferencedBuildIds_fuel hr hf
+
+/-- no KeyError on a closed trail (what `validate` accepts) whose records carry a step label and whose stop
+records carry a build-id -/
+theorem referencedBuildIds_no_keyError (fuel : Nat) (a : Audit.Audit) (hc : Closed a) (hl : Labelled a) :
+    getReferencedBuildIds fuel a ≠ .keyError :=
+  fun h => not_broken_of_closed_labelled hc hl (referencedBuildIds_keyError fuel a h)
+
+/-- **total correctness of the traversal**: on an acyclic, closed, labelled trail `getReferencedBuildIds`
+returns — for `rbiFuel` and every larger fuel — exactly the build-ids of the first stop-label records on the
+reference paths from the artifact -/
+theorem referencedBuildIds_total (a : Audit.Audit)
+    (hacyc : ∃ rank : Id → Nat, ∀ j c i, lookupRef a.references j = some c → i ∈ c.getReferences → rank i < rank j)
+    (hc : Closed a) (hl : Labelled a) :
+    ∃ F, ∀ fuel, F ≤ fuel → ∃ ids, getReferencedBuildIds fuel a = .ok ids ∧
+      ∀ b, b ∈ ids ↔ Hit a.references a.artifact.getReferences b := by
+  obtain ⟨rank, hr⟩ := hacyc
+  refine ⟨rbiFuel a rank, fun fuel hf => ?_⟩
+  cases hres : getReferencedBuildIds fuel a with
+  | ok ids => exact ⟨ids, rfl, referencedBuildIds_spec fuel a ids hres⟩
+  | keyError => exact absurd hres (referencedBuildIds_no_keyError fuel a hc hl)
+  | outOfFuel => exact absurd hres (getReferencedBuildIds_fuel hr hf)
+
+/-- the same from what the implementation itself checks: an acyclic trail that the debug validator accepts
+(`validate a = .ok`) and whose records are labelled yields the transitive build-id set -/
+theorem referencedBuildIds_total_of_validate (a : Audit.Audit)
+    (hacyc : ∃ rank : Id → Nat, ∀ j c i, lookupRef a.references j = some c → i ∈ c.getReferences → rank i < rank j)
+    (hv : validate a = .ok) (hl : Labelled a) :
+    ∃ fuel ids, getReferencedBuildIds fuel a = .ok ids ∧ ∀ b, b ∈ ids ↔ Hit a.references a.artifact.getReferences b := by
+  obtain ⟨F, h⟩ := referencedBuildIds_total a hacyc ((validate_iff_closed a).1 hv) hl
+  obtain ⟨ids, h1, h2⟩ := h F (Nat.le_refl _)
+  exact ⟨F, ids, h1, h2⟩
+
+/-- non-vacuity: a three-record DAG trail (`pkg → [3, 1]`, `1 → [2]`, `2 → [3]`, `3` the `dist` record) is
+acyclic, closed and labelled; id `3` is popped twice, so four iterations are needed for three records, and
+`rbiFuel` is exactly that -/
+example : (∃ rank : Id → Nat, ∀ j c i, lookupRef exAudit.references j = some c → i ∈ c.getReferences → rank i < rank j) ∧
+    Closed exAudit ∧ Labelled exAudit ∧ rbiFuel exAudit exRank = 4 ∧
+    getReferencedBuildIds 4 exAudit = .ok [[0xab]] ∧ getReferencedBuildIds 3 exAudit = .outOfFuel :=
+  ⟨⟨exRank, exAudit_acyclic⟩, (validate_iff_closed _).1 (by decide), exAudit_labelled, by decide, by decide, by decide⟩
+
+/-! ### 5. setRecipesAudit; the debug validation on load -/
+
+/-- **`setRecipesAudit` records exactly what it is given**: afterwards the `recipes` entry is the audit stored
+under the empty name (absent when that is missing or `None`), the `layers` entry is the dict of all other
+entries in their order (`None` kept; absent when there is none), every other entry of the record is
+untouched, and the cached id is dropped so that the next `getId` digests the new content -/
+theorem setRecipesAudit_spec (a : Audit.Audit) (ra : List (Str × Option Data)) :
+    dictGet (setRecipesAudit a ra).artifact.other "recipes".toList = (dictGet ra []).bind id ∧
+    dictGet (setRecipesAudit a ra).artifact.other "layers".toList =
+      (if (layersOf ra).isEmpty then none else some (.map (layersOf ra))) ∧
+    (∀ k, k ≠ "recipes".toList → k ≠ "layers".toList →
+      dictGet (setRecipesAudit a ra).artifact.other k = dictGet a.artifact.other k) ∧
+    (setRecipesAudit a ra).artifact.cachedId = none :=
+  ⟨setRecipesAudit_recipes a ra, setRecipesAudit_layers a ra, fun _ h1 h2 => setRecipesAudit_other a ra h1 h2, rfl⟩
+
+/-- it touches neither the dependencies nor the reference map: closure is preserved -/
+theorem setRecipesAudit_closure (a : Audit.Audit) (ra : List (Str × Option Data)) :
+    (setRecipesAudit a ra).references = a.references ∧
+    (setRecipesAudit a ra).artifact.getReferences = a.artifact.getReferences ∧
+    (ClosedAll a → ClosedAll (setRecipesAudit a ra)) :=
+  ⟨rfl, rfl, closedAll_setRecipesAudit ra⟩
+
+example : dictGet (setRecipesAudit (create []) [("l1".toList, some (.str ['x'])), ([], some (.int 1)), ("l2".toList, none)]).artifact.other
+    "layers".toList = some (.map [("l1".toList, .str ['x']), ("l2".toList, .null)]) := by
+  rw [(setRecipesAudit_spec _ _).2.1]; rfl
+
+/-- **the `--debug audit` validation on load is vacuous** (the code as it is: `Audit.load` calls
+`__validate()` before it assigns `__artifact`/`__references`, and `fromFile`/`fromByteStream` call `load` on a
+fresh object): no tree whatsoever is rejected as incomplete -/
+theorem loadDebug_fresh_accepts_all (H : Bytes → Id) (fields : List (Str × Data)) (tree : Audit.Audit) :
+    loadDebug H (create fields) tree = .ok (load H tree) :=
+  loadDebug_create H fields tree
+
+/-- ... in particular a trail with a dangling reference, which `validate` itself rejects -/
+example : ∃ tree : Audit.Audit, validate (load (fun b => b) tree) = .missing [1] ∧
+    loadDebug (fun b => b) (create []) tree = .ok (load (fun b => b) tree) :=
+  ⟨{ artifact := exRec "package" [[1]], references := [] }, by decide, loadDebug_create _ _ _⟩
 
 end C14
